@@ -362,7 +362,10 @@ def register(reg):
     reg.guarantees.append(("G-evset:events-stay-set", g_ev_set, ("g:ev_set",)))
 
     # ---- TaskStatus
-    reg.lib_methods["TaskStatus.started"] = lambda eng, st, recv, pos, kw, node, awaited: [Res(st, NONE_SV)]
+    def ts_started(eng, st, recv, pos, kw, node, awaited):
+        st.trace.append(("lib", "TaskStatus.started", recv))
+        return [Res(st, NONE_SV)]
+    reg.lib_methods["TaskStatus.started"] = ts_started
 
     # ---- TaskGroup.start_soon / start (A-TG3/4): ghost spawn log per group
     def _log_spawn(st, tg, pos):
@@ -573,7 +576,9 @@ class FactoryRun(FnSpec):
         starts = [i for i, e in enumerate(tr) if e[0] == "lib" and "started" in str(e[1])]
         waits = [i for i, e in enumerate(tr) if e[0] == "suspend" and "await-event" in str(e[1])]
         exits = [i for i, e in enumerate(tr) if e[0] == "suspend" and "task-group-exit" in str(e[1])]
-        return [("waits-for-the-finished-event-before-leaving-the-group",
+        return [("started-reported-once-inside-the-open-group-before-waiting",
+                 z3.BoolVal(len(starts) == 1 and len(waits) == 1 and starts[0] < waits[0])),
+                ("waits-for-the-finished-event-before-leaving-the-group",
                  z3.BoolVal(len(waits) == 1 and len(exits) >= 1 and waits[0] < exits[0])),
                 ("returns-only-after-the-finished-event-was-set", ev_is_set(F.new, Val.a(F.old.fld("_finished_event", f))))]
 
